@@ -62,7 +62,12 @@ def canon(b, t):
             return inner
         return (k, inner) + tuple(t[2:3])
     if k == 'call':
-        return ('call', strip_generics(t[1]).split('::')[-1], tuple(canon(b, a) for a in t[2]))
+        nm = strip_generics(t[1]).split('::')[-1]
+        if nm in ('as_mut', 'as_ref', 'as_deref', 'as_deref_mut') and len(t[2]) == 1:
+            inner = canon(b, t[2][0])
+            if inner[0] == 'role':
+                return inner        # a view of the same stack: `opt.as_mut()` for `*opt` with `ref mut`
+        return ('call', nm, tuple(canon(b, a) for a in t[2]))
     if k == 'closure':
         # two copies of the same closure have different definition paths: identify a closure by what it calls and captures
         cb = CLOSURE_FACTS.body(t[1]) if CLOSURE_FACTS is not None else None
@@ -91,6 +96,125 @@ def reduce_facts(facts, R, b):
     return out, lookup
 
 
+SPAN_CLASS = {'O': 'the empty span (0, 0)', 'E': 'a zero-length span at the end of the last entry', 'Z': 'a zero-length span',
+              'F': 'first popped entry that derived something (else the end of the last entry) .. end of the last entry',
+              'P': 'first popped entry .. end of the last entry'}
+
+
+def classify_span(facts, b, spt):
+    """abstract value of the span handed to the action: (class, complaint).  O = new(0, 0); E = zero-length at the end of the last
+    entry of the span stack; F = from the start of the first entry at or after pop_idx - 1 that is not empty (falling back to the end
+    of the last entry) to the end of the last entry; P = from entry pop_idx - 1 unconditionally (the repaired defect)."""
+    sp = strip_ref(spt)
+    if not (is_call(sp, 'new') and len(sp[2]) == 2):
+        return None, 'the span passed to the action is not built by Span::new(start, end) in the reduce arm: %s' % fmt_term(sp)[:120]
+    a, d = sp[2]
+
+    def is_pop_first(ix):
+        # (len(pstack) - len(prod(p))) - 1
+        return ix is not None and ix[0] == 'bin' and ix[1] == 'Sub' and ix[3] == ('const', 1) and ix[2][0] == 'bin' and ix[2][1] == 'Sub' \
+            and is_call(ix[2][2], 'len') and canon(b, ix[2][2][2][0]) == ('role', 'PSTACK') and is_call(ix[2][3], 'len') and has_call(ix[2][3], 'prod')
+
+    def is_last_ix(ix):
+        return ix is not None and ix[0] == 'bin' and ix[1] == 'Sub' and ix[3] == ('const', 1) and is_call(ix[2], 'len') \
+            and canon(b, ix[2][2][0]) == ('role', 'SPANS')
+
+    def entry(t, acc):
+        # acc(index(spans, IDX)) -> IDX, or None
+        t = strip_ref(t)
+        if is_call(t, acc) and t[2]:
+            x = strip_ref(t[2][0])
+            if is_call(x, 'index') and canon(b, x[2][0]) == ('role', 'SPANS'):
+                return x[2][1]
+        return None
+
+    def end_of_last(t):
+        t = strip_ref(t)
+        if is_last_ix(entry(t, 'end')):
+            return True
+        # end(payload of spans.last())
+        if is_call(t, 'end') and t[2]:
+            x = strip_ref(t[2][0])
+            while isinstance(x, tuple) and x and x[0] in ('field', 'downcast', 'deref', 'ref'):
+                x = x[1]
+            return is_call(x, 'last') and canon(b, x[2][0]) == ('role', 'SPANS')
+        # payload of spans.last().map(|s| s.end())
+        x = t
+        while isinstance(x, tuple) and x and x[0] in ('field', 'downcast', 'deref', 'ref'):
+            x = x[1]
+        if is_call(x, 'map') and len(x[2]) == 2 and is_call(strip_ref(x[2][0]), 'last') and canon(b, strip_ref(x[2][0])[2][0]) == ('role', 'SPANS') and x[2][1][0] == 'closure':
+            cb = facts.body(x[2][1][1])
+            if cb is not None:
+                ps_ = Walker(cb, facts, max_paths=8).run()
+                return bool(ps_) and all(p_.end[0] == 'return' and is_call(strip_ref(p_.end[1]), 'end') and term_has(p_.end[1], lambda y: y == ('param', 2)) for p_ in ps_)
+        return False
+
+    def first_nonempty(t):
+        # map_or / unwrap_or over find(<the entries from pop_idx - 1 on>, |s| !s.is_empty()) with the END of the last entry as fallback
+        t = strip_ref(t)
+        fs = [x for x in subterms(t) if is_call(x, 'find')]
+        if not fs:
+            return False
+        sl = [x for x in subterms(fs[0]) if is_call(x, 'index') and len(x[2]) == 2 and canon(b, x[2][0]) == ('role', 'SPANS')
+              and isinstance(x[2][1], tuple) and x[2][1] and x[2][1][0] == 'variant' and x[2][1][3] == 'RangeFrom']
+        sk = [x for x in subterms(fs[0]) if is_call(x, 'skip') and len(x[2]) == 2 and term_has(canon(b, x[2][0]), lambda y: y == ('role', 'SPANS'))]
+        frm = sl[0][2][1][4][0] if sl else (sk[0][2][1] if sk else None)
+        if not is_pop_first(frm):
+            return False
+        clos = [facts.body(x[1]) for x in subterms(t) if isinstance(x, tuple) and x and x[0] == 'closure']
+        clos = [cb for cb in clos if cb is not None]
+        pred = [cb for cb in clos if cb.calls_named('is_empty') or cb.calls_named('len')]
+        takes_start = has_call(t, 'start') or any(cb.calls_named('start') for cb in clos)
+        if not pred or not takes_start:
+            return False
+        return term_has(t, lambda x: x == strip_ref(d))
+
+    if a == d:
+        if a == ('const', 0):
+            return 'O', ''
+        return ('E' if end_of_last(d) else 'Z'), ''
+    if first_nonempty(a) and end_of_last(d):
+        return 'F', ''
+    if is_pop_first(entry(a, 'start')) and end_of_last(d):
+        return 'P', ''
+    return None, ('the span is neither (start of the first popped entry that derived something, end of the last entry) nor zero-length: %s - '
+                  'a production that derives no lexeme is handed a span that covers text it did not derive' % fmt_term(sp)[:160])
+
+
+def span_situations(b, p):
+    """which of S0 (span stack empty), S1 (pop_idx - 1 < len: the production popped entries), S2 (non-empty stack, empty production)
+    the path's conditions allow"""
+    sits = {'S0', 'S1', 'S2'}
+    for c, v in p.conds:
+        cc = canon(b, c)
+        if not term_has(cc, lambda x: x == ('role', 'SPANS')) or is_len_eq(c):
+            continue
+        if cc[0] == 'call' and cc[1] == 'is_empty' and isinstance(v, int):
+            sits &= ({'S0'} if v else {'S1', 'S2'})
+            continue
+        while cc[0] == 'discr' and isinstance(cc[1], tuple) and cc[1][0] == 'call' and cc[1][1] == 'map' and len(cc[1][2]) == 2:
+            cc = ('discr', cc[1][2][0])     # Option::map keeps Some/None
+        if cc[0] == 'discr' and isinstance(cc[1], tuple) and cc[1][0] == 'call' and cc[1][1] in ('last', 'first'):
+            if v == 0:
+                sits &= {'S0'}
+            elif v == 1 or (isinstance(v, tuple) and v[0] == 'ne' and 0 in v[1]):
+                sits &= {'S1', 'S2'}
+        elif cc[0] == 'bin' and cc[1] == 'Eq' and ('const', 0) in (cc[2], cc[3]) and has_len_of_spans(cc) and isinstance(v, int):
+            sits &= ({'S0'} if v else {'S1', 'S2'})
+        elif cc[0] == 'bin' and cc[1] in ('Lt', 'Le') and isinstance(v, int):
+            # (pop_idx - 1) < len(spans)  /  len(spans) <= pop_idx - 1
+            l_is_len, r_is_len = has_len_of_spans(cc[2]), has_len_of_spans(cc[3])
+            if r_is_len and not l_is_len and cc[1] == 'Lt':
+                sits &= ({'S1'} if v else {'S0', 'S2'})
+            elif l_is_len and not r_is_len and cc[1] == 'Le':
+                sits &= ({'S0', 'S2'} if v else {'S1'})
+    return sits
+
+
+def has_len_of_spans(t):
+    return term_has(t, lambda x: isinstance(x, tuple) and len(x) > 2 and x[0] == 'call' and x[1] == 'len' and x[2] and x[2][0] == ('role', 'SPANS'))
+
+
 def r81_82_83(facts, res):
     lr = find_fn(facts, 'R8.1', 'lr')
     up = find_fn(facts, 'R8.1', 'lr_upto')
@@ -98,6 +222,7 @@ def r81_82_83(facts, res):
     for name, b in (('lr', lr), ('lr_upto', up)):
         rf, lookup = reduce_facts(facts, 'R8.1', b)
         S = set()
+        span_table = {}
         n_with = n_without = 0
         for p, ic in rf:
             # R8.2 exactly once
@@ -157,63 +282,29 @@ def r81_82_83(facts, res):
                 res.bad('R8.3', k3, loc_of(b, e[1]), '; '.join(probs))
             else:
                 res.ok('R8.3', k3, loc_of(b, e[1]), 'actions[p](prod_to_rule(p), lexer, pushed span, astack.drain(pop_idx-1..), param.clone())')
-            # R8.7 shape of the span: from the first popped entry to the last one, or zero-length
+            # R8.7 / R8.1: what span does this path compute, and in which situations is it taken?
             if len(args) == 5:
                 k7 = 'span-shape:%s#%d' % (name, len([i for i in res.instances if i['key'].startswith('R8.7:span-shape:%s' % name)]))
-                sp = strip_ref(args[2])
-                if not (is_call(sp, 'new') and len(sp[2]) == 2):
-                    res.bad('R8.7', k7, loc_of(b, e[1]), 'the span passed to the action is not built by Span::new(start, end) in the reduce arm: %s' % fmt_term(sp)[:120])
+                cls, why = classify_span(facts, b, args[2])
+                sits = span_situations(b, p)
+                want = {'S0': {'O'}, 'S1': {'F'}, 'S2': {'E', 'F'}}     # F with nothing left to search falls back to the end of the last entry
+                wrong = sorted(st for st in sits if cls not in want[st])
+                if cls == 'P':
+                    res.bad('R8.7', k7, loc_of(b, e[1]), 'the span starts at the first popped entry even when that entry derived nothing: an empty leading symbol sits at the end of '
+                            'whatever precedes the production, so the span then starts before the first lexeme the production derived (skipped text is included)')
+                elif cls is None:
+                    res.bad('R8.7', k7, loc_of(b, e[1]), why)
+                elif wrong:
+                    res.bad('R8.7', k7, loc_of(b, e[1]), 'span %s is computed in situation(s) %s (S0 = no spans yet, S1 = the production popped at least one entry, S2 = empty production); '
+                            'expected (0,0) / first derived lexeme..end of last / zero-length at the end of the last entry: a production that derives no lexeme is handed a span that '
+                            'covers text it did not derive, or the other way round' % (SPAN_CLASS[cls], wrong))
                 else:
-                    a, d = sp[2]
-                    def entry(t, acc):
-                        # acc(index(spans, IDX)) -> IDX, or None
-                        t = strip_ref(t)
-                        if is_call(t, acc) and t[2]:
-                            x = strip_ref(t[2][0])
-                            if is_call(x, 'index') and canon(b, x[2][0]) == ('role', 'SPANS'):
-                                return x[2][1]
-                        return None
-                    ia, id_ = entry(a, 'start'), entry(d, 'end')
-                    def is_pop_first(ix):
-                        # (len(pstack) - len(prod(p))) - 1
-                        return ix is not None and ix[0] == 'bin' and ix[1] == 'Sub' and ix[3] == ('const', 1) and ix[2][0] == 'bin' and ix[2][1] == 'Sub' \
-                            and is_call(ix[2][2], 'len') and canon(b, ix[2][2][2][0]) == ('role', 'PSTACK') and is_call(ix[2][3], 'len') and has_call(ix[2][3], 'prod')
-                    def is_last(ix):
-                        return ix is not None and ix[0] == 'bin' and ix[1] == 'Sub' and ix[3] == ('const', 1) and is_call(ix[2], 'len') \
-                            and canon(b, ix[2][2][0]) == ('role', 'SPANS')
-                    def first_nonempty(t):
-                        # map_or / unwrap_or over find(iter(spans[pop_idx-1 ..]), |s| !s.is_empty()) with the END of the last entry as
-                        # the fallback: the start of the first popped entry that derived something
-                        t = strip_ref(t)
-                        fs = [x for x in subterms(t) if is_call(x, 'find')]
-                        if not fs:
-                            return False
-                        sl = [x for x in subterms(fs[0]) if is_call(x, 'index') and len(x[2]) == 2 and canon(b, x[2][0]) == ('role', 'SPANS')
-                              and isinstance(x[2][1], tuple) and x[2][1] and x[2][1][0] == 'variant' and x[2][1][3] == 'RangeFrom']
-                        if not sl or not is_pop_first(sl[0][2][1][4][0]):
-                            return False
-                        clos = [facts.body(x[1]) for x in subterms(t) if isinstance(x, tuple) and x and x[0] == 'closure']
-                        clos = [cb for cb in clos if cb is not None]
-                        pred = [cb for cb in clos if cb.calls_named('is_empty') or cb.calls_named('len')]
-                        takes_start = has_call(t, 'start') or any(cb.calls_named('start') for cb in clos)
-                        if not pred or not takes_start:
-                            return False
-                        return term_has(t, lambda x: x == strip_ref(d))
-                    if a == d:
-                        res.ok('R8.7', k7, loc_of(b, e[1]), 'zero-length span %s' % fmt_term(sp)[:80])
-                    elif first_nonempty(a) and is_last(id_):
-                        res.ok('R8.7', k7, loc_of(b, e[1]), 'from the start of the first popped entry that derived something (else zero-length at the end) to the end of the last one')
-                    elif is_pop_first(ia) and is_last(id_):
-                        res.bad('R8.7', k7, loc_of(b, e[1]), 'the span starts at the first popped entry even when that entry derived nothing: an empty leading symbol sits at the end of '
-                                'whatever precedes the production, so the span then starts before the first lexeme the production derived (skipped text is included)')
-                    else:
-                        res.bad('R8.7', k7, loc_of(b, e[1]), 'the span is neither (start of the first popped entry spans[pop_idx-1], end of the last entry) nor zero-length: %s - '
-                                'a production that derives no lexeme is handed a span that covers text it did not derive' % fmt_term(sp)[:160])
-            # R8.1 material
-            span_conds = tuple(sorted(((repr(canon(b, c)), str(v)) for c, v in p.conds
-                                       if term_has(canon(b, c), lambda x: x == ('role', 'SPANS')) and not is_len_eq(c)
-                                       and not (canon(b, c)[0] == 'discr' and canon(b, c)[1][0] == 'role')), key=str))
-            S.add((span_conds, repr(canon(b, args[2])), repr(tuple(canon(b, a) for a in (args[0], args[3])))))
+                    res.ok('R8.7', k7, loc_of(b, e[1]), '%s in %s' % (SPAN_CLASS[cls], '/'.join(sorted(sits))))
+                for st in sits:
+                    span_table.setdefault(st, set()).add('E' if (cls == 'F' and st == 'S2') else (cls or 'other:' + repr(canon(b, args[2]))[:200]))
+            # R8.1 material: the span behaviour per situation (above) and the other arguments
+            S.add(repr(tuple(canon(b, a) for a in (args[0], args[3]))))
+        S.add(repr(sorted((k, sorted(v)) for k, v in span_table.items())))
         sets[name] = S
         if name == 'lr' and n_without:
             pass
@@ -236,8 +327,9 @@ def is_len_eq(c):
 
 
 def strip_to_local(t):
-    while isinstance(t, tuple) and t and t[0] in ('field', 'downcast', 'deref', 'ref'):
-        t = t[1]
+    while isinstance(t, tuple) and t and (t[0] in ('field', 'downcast', 'deref', 'ref')
+                                          or (t[0] == 'call' and strip_generics(t[1]).split('::')[-1] in ('as_mut', 'as_ref', 'as_deref', 'as_deref_mut') and len(t[2]) == 1)):
+        t = t[2][0] if t[0] == 'call' else t[1]
     if isinstance(t, tuple) and t and t[0] in ('param', 'uninit'):
         return t[1]
     return None
